@@ -597,6 +597,7 @@ func checkOneSortedSlice(p *core.Program, r *core.Report, rf, prep *ssa.Function
 func storeSideC10(p *core.Program, r *core.Report) {
 	// the store's completeness test sees what the part files hold: file operations are atomic with their record
 	checkPartFileLocking(p, r, "")
+	checkWriteErrorsNotDropped(p, r)
 	// distinct fragments get distinct part files: the file name depends on the payload length, too
 	bpp := p.Func(storagePkg, "", "bundlePartPath")
 	okName := false
